@@ -299,3 +299,12 @@ package schema
 //@     invariant[positions_in_range] forall(k int, j int :: in(k, m) && 0 <= j && j < len(m[k]) ==> 0 <= m[k][j] && m[k][j] < len(chunks))
 //@   loop 3:
 //@     modifies fresh()
+
+//@ func MergeStreamReaders
+//@   props C08
+//@   skip frame
+//@   note only the assertion below and panic-freedom are checked; the merged reader built from the collected channel streams is outside (newMultiStreamReader, toStream are not under contract); type invariants of the readers are assumed in the precondition
+//@   requires forall(i int :: 0 <= i && i < len(srs) ==> srs[i] != nil && 0 <= srs[i].typ && srs[i].typ <= readerTypeChild && (srs[i].typ == readerTypeArray ==> srs[i].ar != nil && 0 <= srs[i].ar.index && srs[i].ar.index <= len(srs[i].ar.arr)) && (srs[i].typ == readerTypeMultiStream ==> srs[i].msr != nil) && (srs[i].typ == readerTypeWithConvert ==> srs[i].srw != nil) && (srs[i].typ == readerTypeChild ==> srs[i].csr != nil))
+//@   after call 2 append: assert[only_unread_items_merged] @C08 len(result) == len(arr) + len(sr.ar.arr) - sr.ar.index && forall(j int :: 0 <= j && j < len(sr.ar.arr) - sr.ar.index ==> result[len(arr) + j] == sr.ar.arr[sr.ar.index + j])
+//@   loop 1:
+//@     invariant[fresh_parts] (arr == nil || fresh(arr)) && (ss == nil || fresh(ss))
